@@ -149,7 +149,7 @@ def make_book(rng):
             put(f'=SUMIF({rng_of(c)}{sep}{criterion(rng, c)})', missized=False)
         elif fn == 'SUMIF3':
             c = cols[0]
-            tgt = rng.choice(['D1:D8', 'D1', 'E1:E8', 'D1:D3', 'E3'])
+            tgt = rng.choice(['D1:D8', 'D1', 'E1:E8', 'D1:D3', 'E3', 'D:D', 'E:E'])
             put(f'=SUMIF({rng_of(c)}{sep}{criterion(rng, c)}{sep}{tgt})', missized=False)
         elif fn == 'SUMIFS':
             put(f'=SUMIFS(D1:D8{sep}{sep.join(pairs)})', missized=missized)
@@ -223,14 +223,80 @@ def run_book(ctx, bi):
         r.sample({'formulas': [f for a, f, m in forms[:12]]})
 
 
+DAYS = [dt.datetime(2024, 1, 14), dt.datetime(2024, 1, 15), dt.datetime(2024, 1, 16), dt.datetime(2024, 2, 1), dt.datetime(2023, 12, 31)]
+DATE_CRITS = ['G1', 'G2', '"={d}"', '">{d}"', '"<{d}"', '">={d}"', '"<={d}"', '"<>{d}"', '"{d}"', '"<>"&"{d}"', '">="&"{d}"']
+
+
+def moment(rng):
+    d = rng.choice(DAYS)
+    if rng.random() < 0.55:
+        return d + dt.timedelta(hours=rng.randrange(0, 24), minutes=rng.choice([0, 30, 59]), seconds=rng.choice([0, 0, 1, 59]))
+    return d
+
+
+def date_cell(rng):
+    k = rng.random()
+    if k < 0.75:
+        return moment(rng)
+    if k < 0.85:
+        return rng.choice(['n/a', 'soon', 'later'])
+    return None
+
+
+def run_dates(ctx, bi):
+    """date-time cells (with and without a time part) in the criteria range, the criterion a date cell handed over as a plain value or
+    a date written year-month-day after an operator: a cell meets '=' only when it is that very moment"""
+    r, rng = ctx.r, ctx.rng
+    cells = {}
+    for row in range(1, 9):
+        v = date_cell(rng)
+        if v is not None:
+            cells[f'A{row}'] = v
+        cells[f'B{row}'] = rng.randrange(1, 50)
+    cells['G1'] = rng.choice(DAYS)
+    cells['G2'] = moment(rng)
+    forms = []
+    for i in range(40):
+        def crit():
+            return rng.choice(DATE_CRITS).format(d=rng.choice(DAYS).strftime('%Y-%m-%d'))
+        fn = rng.choice(['COUNTIFS', 'COUNTIFS2', 'SUMIF', 'SUMIFS', 'SUMIFS2', 'AVERAGEIFS'])
+        f = {'COUNTIFS': f'=COUNTIFS(A1:A8,{crit()})', 'COUNTIFS2': f'=COUNTIFS(A1:A8,{crit()},B1:B8,">10")', 'SUMIF': f'=SUMIF(A1:A8,{crit()},B1:B8)',
+             'SUMIFS': f'=SUMIFS(B1:B8,A1:A8,{crit()})', 'SUMIFS2': f'=SUMIFS(B1:B8,A1:A8,{crit()},A1:A8,{crit()})', 'AVERAGEIFS': f'=AVERAGEIFS(B1:B8,A1:A8,{crit()})'}[fn]
+        a = wbspec.a1(i + 1, 10)
+        cells[a] = f
+        forms.append(a)
+        r.count('date_criteria_formulas')
+    vals = [[]]
+    for _ in range(4):
+        ov = []
+        for row in rng.sample(range(1, 9), 5):
+            v = date_cell(rng)
+            if v is not None:
+                ov.append((0, f'A{row}', v))
+        ov.append((0, 'G1', rng.choice(DAYS)))
+        # the criterion cell sometimes holds exactly the moment of one of the cells, sometimes the midnight of its day
+        pick = [v for (_, _, v) in ov if isinstance(v, dt.datetime)]
+        ov.append((0, 'G2', rng.choice(pick) if pick and rng.random() < 0.6 else moment(rng)))
+        vals.append(ov)
+
+    def on_result(case, out, outs, ok):
+        r.count('fn:' + case['formula'][1:case['formula'].index('(')])
+    judge_book(ctx, ID, wbspec.spec(wbspec.sheet('S', cells)), [(0, a) for a in forms], vals, exact=False, name=f'dt{bi}', monitor='criteria-reference',
+               classify=classify, nontrivial=lambda case, outs: is_num(outs[0]) and outs[0] != 0, on_result=on_result)
+
+
 def plan(tier, seed):
     n = 6 if tier == 'quick' else 160
-    return [{'k': k, 'n': n} for k in range(16)]
+    return [{'k': k, 'n': n} for k in range(16)] + [{'dates': k, 'n': 2 if tier == 'quick' else 40} for k in range(4)]
 
 
 def run_shard(shard, ctx):
     if 'replay' in shard:
         return replay_case(ctx, ID, shard['replay'], exact=False, classify=classify)
+    if 'dates' in shard:
+        for i in range(shard['n']):
+            run_dates(ctx, shard['dates'] * 1000 + i)
+        return
     for i in range(shard['n']):
         run_book(ctx, shard['k'] * 1000 + i)
 
